@@ -102,6 +102,9 @@ STRENGTHENED = {
     # eighth round (four properties)
     'C06-10': 'dimensioned measurements whose transform / precision is declared before the dimensions (and precision on a dimensioned measurement at all)',
     'C16-10': 'bare INFO packets (header only) and OKAY replies without text in the response sequences',
+    # ninth round (three properties)
+    'C07-10': 'pivot rows whose value is None at every position of every pass/fail pattern',
+    'C17-11': 'close / move / serializer / write faults raising InterruptedError, BrokenPipeError and OSError(ENOSPC)',
 }
 # caught at once, but by the check of a neighbouring property
 NEIGHBOUR = {
